@@ -112,6 +112,13 @@ func (r *bucketRegistry) deleteBucket(ctx context.Context, bucket *Bucket) error
 	r.lock.Lock()
 	defer r.lock.Unlock()
 
+	for _, registered := range r.buckets {
+		if registered.mutex != bucket.mutex && (registered.name == name || (!bucket.inMemory && registered.url == bucket.url)) {
+			// This handle's own bucket was deleted earlier, and its name or directory now belongs to
+			// another, live bucket: leave that one (registry entry, reference count, files) alone.
+			return nil
+		}
+	}
 	_, ok := r.buckets[name]
 	if ok {
 		delete(r.buckets, name)
